@@ -295,6 +295,26 @@ func init() {
 					cases = append(cases, c15Case{Fn: "put", S: tn(s), D: tn(s), C1: pk[0], K1: pk[1], C2: pk[2], K2: pk[3]})
 				}
 			}
+			// operands of 70000 frames (work-splitting paths that come before the check): one instantiation of
+			// each conversion function and every same-type one, and Append
+			{
+				seen := map[string]bool{}
+				for s := 0; s < dyn.NB; s++ {
+					for d := 0; d < dyn.NB; d++ {
+						if fn := dyn.ConvName(s, d); s == d || !seen[fn] {
+							if s != d {
+								seen[fn] = true
+							}
+							for _, cc := range [][2]int{{1, 2}, {2, 1}, {2, 3}} {
+								cases = append(cases, c15Case{Fn: "conv", S: tn(s), D: tn(d), C1: cc[0], C2: cc[1], Frames: 70000})
+							}
+						}
+					}
+				}
+				for _, t := range []int{dyn.Int8, dyn.Float64} {
+					cases = append(cases, c15Case{Fn: "append", S: tn(t), D: tn(t), C1: 1, C2: 2, Frames: 70000}, c15Case{Fn: "append", S: tn(t), D: tn(t), C1: 2, C2: 1, Frames: 70000})
+				}
+			}
 			// the zero value of the buffer type as receiver of Append
 			for s := 0; s < dyn.NB; s++ {
 				for c1 := 1; c1 <= 4; c1++ {
@@ -310,7 +330,7 @@ func init() {
 			c.Sample(cases[0])
 			c.Sample(cases[len(cases)-1])
 			c.Sample(cases[len(cases)/2])
-			c.Set("rule", "the 13 guarded entry points: all 169 conversion instantiations x every ordered pair of different channel counts in 1..4; Append x 13 types x the same pairs; ReadStriped/WriteStriped x 169 pairs x channels 1..4 x slice counts 0..5 (and a nil outer slice) different from the channel count; PoolAllocator.Put x 13 types x pools (C<=3,K<=3) x buffers (C<=4,K<=4) of a different total capacity (incl. 0); operands non-empty, filled with recognisable tokens; plus channel-count pairs (9,10), (64,65), (1,100) and 1100-frame operands for all instantiations and pools up to 20000 samples; the zero value of the buffer type as receiver of Append; foreign buffers of 2^20+1 .. 2^27+5 samples (up to 128 MiB) offered to 16-sample pools; oracle: the call panics and both buffers (shape + every sample over the capacity), the caller's slices and the pool's free list (seen through the sync shim) are identical to the snapshot taken before, and a following Get is fresh; every case distinct and non-trivial")
+			c.Set("rule", "the 13 guarded entry points: all 169 conversion instantiations x every ordered pair of different channel counts in 1..4; Append x 13 types x the same pairs; ReadStriped/WriteStriped x 169 pairs x channels 1..4 x slice counts 0..5 (and a nil outer slice) different from the channel count; PoolAllocator.Put x 13 types x pools (C<=3,K<=3) x buffers (C<=4,K<=4) of a different total capacity (incl. 0); operands non-empty, filled with recognisable tokens; plus channel-count pairs (9,10), (64,65), (1,100) and 1100-frame operands for all instantiations, 70000-frame operands for one instantiation of each conversion function, the same-type ones and Append and pools up to 20000 samples; the zero value of the buffer type as receiver of Append; foreign buffers of 2^20+1 .. 2^27+5 samples (up to 128 MiB) offered to 16-sample pools; oracle: the call panics and both buffers (shape + every sample over the capacity), the caller's slices and the pool's free list (seen through the sync shim) are identical to the snapshot taken before, and a following Get is fresh; every case distinct and non-trivial")
 			c.Assume("the pool's contents are observed through the sync.Pool shim injected by overlay")
 		},
 		RunCase: func(c *core.Ctx, raw json.RawMessage) []F { return c15Run(decode[c15Case](raw)) },
